@@ -122,15 +122,18 @@ CLAIMS = {
              "dt/ll and stores member 0; the -1 sentinel written for missing links is excluded by the "
              "guards for every sign class of (n_k, link) or multiplied by n_k = 0; the auxiliary "
              "operators are fully reset before their first use in a run (the repaired C15 defect). "
-             "Not decided: completeness/uniqueness of the index set and mutual inverseness of the "
-             "link tables for arbitrary depth (combinatorial), zero-coupling and depth limits "
-             "(numerical).",
+             "The tail of the constructor with generate_indices/_convert_2_matrix/_make_nmp1/_make_Gamma "
+             "is interpreted for 1-4 baths and depths 0-3 (thorough: up to 5 baths, depth 5) and yields "
+             "the complete index set exactly once level by level, the level offsets, mutually inverse "
+             "links with -1 exactly at the boundaries and Gamma[n]=sum_k n_k gamma_k. Not decided: the "
+             "index set beyond that bound, zero-coupling and depth limits (numerical).",
         note=BASE_NOTE + "Vs, H Hermitian; lam, gamma, kBT real; index set complete (a missing lower "
              "link only with n_k = 0).",
         technique="index-algebra interpretation of the right-hand-side loop bodies, Taylor-loop "
                   "recogniser with the right-hand sides as opaque linear maps, finite evaluation of "
-                  "comparison-only guards, reset-before-use ordering rule",
-        design="3/C16"),
+                  "comparison-only guards, reset-before-use ordering rule, finite-configuration evaluation of "
+                  "the constructor's table builders (qv/feval.py)",
+        design="3/C16, 9.5"),
     "C17": dict(
         text="Static decision of the structural clauses of C17: RateMatrix.set_rate, interpreted with "
              "the index algebra, leaves every column sum unchanged, touches only column M, keeps the "
@@ -197,9 +200,14 @@ CLAIMS = {
              "every element store into the coupling matrix has its mirror with the same value in the same block "
              "and couplings are stored in internal units; build() runs its implementation inside "
              "energy_units('int') and forwards all arguments (so the built system does not depend on the "
-             "caller's units); state energy sums over every molecule, one-exciton and two-site couplings and "
-             "the transition dipole read the molecules the model prescribes. Not decided: ordering of states "
-             "by band, two-exciton block values, relabelling invariance of spectra (combinatorial/spectral).",
+             "caller's units); coupling(), transition_dipole(), _get_exindx() and ElectronicState.energy() are "
+             "interpreted by a finite-configuration evaluator on every pair of occupation signatures of 2-5 "
+             "molecules (thorough: 2-7, up to three excitations) of two- and three-level molecules and equal "
+             "the Frenkel statement (J[k,l] x overlap x ladder factors iff one quantum moved between k and l, "
+             "zero otherwise and between bands; dipole of the single molecule that changes between adjacent "
+             "bands; sum of level energies plus vibrational quanta). Not decided: the generators of the state "
+             "list (ordering by band), anything beyond the evaluated bound, relabelling invariance of spectra "
+             "as a spectral statement.",
         note=BASE_NOTE + "scipy.constants values; dipoles in Debye, lengths in Angstrom.",
         technique="index/scalar algebra on the interaction formula, numeric constant folding of module "
                   "constants, store-pairing rule, lexical units-context rule, statement-level rules",
@@ -238,13 +246,17 @@ CLAIMS = {
              "its inverse; the ladder operators are a[n-1,n]=sqrt(n) and its transpose, the generator of the "
              "shift operator is (d a^+ - conj(d) a)/sqrt(2) and anti-Hermitian (index algebra), exponentiated "
              "as S diag(exp) S^-1 - the necessary structure for unitary overlaps with displacement sqrt(S); "
-             "fc_factor multiplies one overlap per mode over all modes, the unapproximated signature generator "
-             "is ndindex over all level counts, dipoles and couplings carry that factor; APIs on the full-space "
-             "path exist. Not decided: overlap values, basis truncation, approximate generators.",
+             "fc_factor, interpreted on every configuration of 0-3 modes, shift sets and quantum numbers up to "
+             "the bound, returns the product over all modes of <n1|D(shift difference)|n2>, computed in the "
+             "call (no value remembered under keys that do not determine the overlap) and refuses states with "
+             "different mode counts; the unapproximated signature generator is ndindex over all level counts; "
+             "dipoles and couplings carry that factor (finite evaluation shared with C03); APIs on the "
+             "full-space path exist. Not decided: overlap values, basis truncation, approximate generators.",
         note=BASE_NOTE + "Poisson statistics of the displaced oscillator (textbook).",
-        technique="scalar/index algebra on the Huang-Rhys convention and the generator, statement-level rules, "
-                  "API-existence resolution",
-        design="3/C10"),
+        technique="scalar/index algebra on the Huang-Rhys convention and the generator, finite-configuration "
+                  "evaluation of fc_factor/coupling/transition_dipole, memo-key provenance rule, API-existence "
+                  "resolution",
+        design="3/C10, 9.5"),
     "C11": dict(
         text="Static decision of the structural clauses of C11: objects transformed into the eigenbasis in "
              "_calculate_aggregate are transformed back with the inverse matrix under the same condition, with "
@@ -338,12 +350,14 @@ CLAIMS = {
              "resulting affine boundaries satisfy N1(0)=start, N2(r)=N1(r+1) for every feasible transition "
              "between classes, N2(size-1)=stop given stop-start=q*size+rem, block sizes in {q,q+1}; the result "
              "depends on start; wrappers distribute range(0,len); the three callers accumulate into a zero "
-             "array inside the parallel region and sum-reduce it before the region closes. Not decided: MPI "
-             "behaviour.",
+             "array inside the parallel region and sum-reduce it before the region closes; independently, the "
+             "source of _calculate_ranges and its wrappers is interpreted concretely for all process counts "
+             "<= 8 (thorough 16), lengths <= 20 (50) and three starts and partitions the range. Not decided: "
+             "MPI behaviour.",
         note=BASE_NOTE + "// and % satisfy the division identity; allreduce(sum) adds.",
         technique="scalar-algebra abstract interpretation per ordering class (exhaustive case split) with "
-                  "polynomial identity checking, def-use, region ordering/pairing rule",
-        design="3/C20"),
+                  "polynomial identity checking, def-use, region ordering/pairing rule, concrete finite evaluation",
+        design="3/C20, 9.5"),
 }
 
 NOT_YET = "check not built yet in this round (see DESIGN.md section 3 for the planned rules)"
